@@ -224,6 +224,40 @@ pub fn run(args: &Args) {
                 ctx!("projection-index-chain").check(&format!("({})[*][{}]", l, n), &expected, !a.is_empty());
             }
         }
+        // 6b. every kind of projection carries a multi-step right-hand side to each element: the
+        // steps after the projection (member, then a filter / index / flatten on that member) are
+        // applied per element, whichever bracket form started the projection
+        if let Ok(Value::Array(_)) = &l_out {
+            let key = match &sample_elem {
+                Value::Object(m) if !m.is_empty() => m.keys().nth(rng.below(m.len())).unwrap().clone(),
+                _ => "a".to_string(),
+            };
+            let field = refimpl::lex::spell_ident(&key, false, 0);
+            let (a, b, c) = (rng.range(-3, 3), rng.range(-3, 4), [1i64, -1, 2][rng.below(3)]);
+            let starts: [(&'static str, String); 4] = [
+                ("chain/list-wildcard", format!("({})[*]", l)),
+                ("chain/slice", format!("({})[{}:{}:{}]", l, a, b, c)),
+                ("chain/flatten", format!("({})[]", l)),
+                ("chain/filter", format!("({})[?`true`]", l)),
+            ];
+            let tails = [format!("{}[?{}]", field, p), format!("{}[0]", field), format!("{}[?{}].{}", field, p, field), format!("{}.*", field), format!("{}[*]", field), format!("{}[1:]", field)];
+            let tail = &tails[rng.below(tails.len())];
+            for (law, start) in starts.iter() {
+                // (a filter projection's right-hand side is parsed with the filter's own binding power:
+                // a second `[?` ends it — the documented tie-break C04 pins down — so no filter tails there)
+                if *law == "chain/filter" && tail.contains("[?") {
+                    continue;
+                }
+                let elems = match guard(s(start, &doc)) {
+                    Some(Ok(Value::Array(e))) => e,
+                    _ => continue,
+                };
+                // flatten ends the projection it follows and starts a new one; the tail applies to ITS elements
+                if let Ok(expected) = project_via_parts(tail, &elems, false) {
+                    ctx!(law).check(&format!("{}.{}", start, tail), &expected, !elems.is_empty());
+                }
+            }
+        }
         // 7. filter
         {
             let expected: Out = match &l_out {
@@ -296,6 +330,41 @@ pub fn run(args: &Args) {
                 Err(c) => Err(c.clone()),
             };
             ctx!("or").check(&format!("({}) || ({})", l, r), &or_e, true);
+            // negations as operands: `!` yields a boolean, and `&&` / `||` hand on the operand's VALUE,
+            // so a negation may not be simplified away on the strength of "only the truth value matters"
+            let t = l_out.clone().map(|v| truthy(&v));
+            let nn_e: Out = t.clone().map(Value::Bool);
+            ctx!("double-not").check(&format!("!!({})", l), &nn_e, true);
+            let nn_or: Out = match &t {
+                Ok(true) => Ok(Value::Bool(true)),
+                Ok(false) => r_on_doc.clone(),
+                Err(c) => Err(c.clone()),
+            };
+            ctx!("double-not-or").check(&format!("!!({}) || ({})", l, r), &nn_or, true);
+            let nn_and: Out = match &t {
+                Ok(true) => r_on_doc.clone(),
+                Ok(false) => Ok(Value::Bool(false)),
+                Err(c) => Err(c.clone()),
+            };
+            ctx!("double-not-and").check(&format!("!!({}) && ({})", l, r), &nn_and, true);
+            let n_or: Out = match &t {
+                Ok(false) => Ok(Value::Bool(true)),
+                Ok(true) => r_on_doc.clone(),
+                Err(c) => Err(c.clone()),
+            };
+            ctx!("not-or").check(&format!("!({}) || ({})", l, r), &n_or, true);
+            let n_and: Out = match &t {
+                Ok(false) => r_on_doc.clone(),
+                Ok(true) => Ok(Value::Bool(false)),
+                Err(c) => Err(c.clone()),
+            };
+            ctx!("not-and").check(&format!("!({}) && ({})", l, r), &n_and, true);
+            let rhs_nn: Out = match &l_out {
+                Ok(v) if truthy(v) => Ok(v.clone()),
+                Ok(_) => r_on_doc.clone().map(|v| Value::Bool(truthy(&v))),
+                Err(c) => Err(c.clone()),
+            };
+            ctx!("or-double-not").check(&format!("({}) || !!({})", l, r), &rhs_nn, true);
         }
         // 10. comparisons on the two results
         {
